@@ -373,6 +373,42 @@ fn c02_k12_div_native_2by2() {
     kani::cover!(q.get_word(0) > 1 && !r.is_zero(), "inexact quotient > 1");
 }
 
+/// K12 early returns, FULL-width limbs: a dividend with fewer 64-bit words than the divisor gives quotient 0 and remainder == dividend with
+/// `return_remainder`, (0, 0) without it; a zero dividend gives (0, 0). Word counts (wn, wd) are a symbolic choice among
+/// (0,1) (0,4) (1,2) (2,3) (3,4) (1,4), announced through the self-checking `scripted_num_words` case split; every limb below the word
+/// count is a full symbolic u64. These are the cases in which the rounding-up decision of the amount functions rests on the remainder alone.
+// @verif prop=C02 tier=quick timeout=300
+#[kani::proof]
+#[kani::unwind(6)]
+#[kani::stub(::whirlpool::math::u256_math::U256Muldiv::num_words, scripted_num_words)]
+fn c02_k12_div_small_dividend() {
+    const CASES: [(usize, usize); 6] = [(0, 1), (0, 4), (1, 2), (2, 3), (3, 4), (1, 4)];
+    let c: usize = kani::any();
+    kani::assume(c < 6);
+    let (wn, wd) = CASES[c];
+    let mut n = U256Muldiv { items: [0; 4] };
+    let mut d = U256Muldiv { items: [0; 4] };
+    let mut i = 0;
+    while i < 4 {
+        if i < wn { n.items[i] = kani::any(); }
+        if i < wd { d.items[i] = kani::any(); }
+        i += 1;
+    }
+    kani::assume(wn == 0 || n.items[wn - 1] != 0);
+    kani::assume(d.items[wd - 1] != 0);
+    unsafe { NW_SCRIPT = [wn, wd]; }
+    let want_rem: bool = kani::any();
+    let (q, r) = n.div(d, want_rem);
+    assert!(q.is_zero(), "dividend < divisor: quotient 0");
+    if want_rem {
+        assert!(r.eq(n), "dividend < divisor: remainder == dividend");
+    } else {
+        assert!(r.is_zero());
+    }
+    kani::cover!(want_rem && wn == 2 && wd == 3, "2-word dividend, 3-word divisor, remainder requested");
+    kani::cover!(wn == 0, "zero dividend");
+}
+
 /// K12a smoke (native-u128 path of `div`, 2-word ÷ 1-word)
 // @verif prop=C02 tier=quick timeout=300
 #[kani::proof]
